@@ -56,8 +56,18 @@ def job_storage(job):
         fr = O.Frame(alg)
         out['configs'] += 1
         N = 2 ** alg.d
-        for _ in range(cfg.get('random', 10)):
-            ak, bk = rand_keys(rng, alg, rng.choice(['sparse', 'grade', 'perm'])), rand_keys(rng, alg, rng.choice(['sparse', 'grade', 'perm']))
+        # grade-block operand pairs (first operand of one parity, second of few grades): the shapes for which a composite operator
+        # could be tempted to decide something from the *stored* grades
+        directed = []
+        if cfg.get('grade_pairs'):
+            ifg = alg.indices_for_grades
+            for ga, gb in cfg['grade_pairs']:
+                directed.append((tuple(ifg[tuple(ga)]), tuple(ifg[tuple(gb)])))
+        for it_ in range(cfg.get('random', 10) + len(directed)):
+            if it_ < len(directed):
+                ak, bk = directed[it_]
+            else:
+                ak, bk = rand_keys(rng, alg, rng.choice(['sparse', 'grade', 'perm'])), rand_keys(rng, alg, rng.choice(['sparse', 'grade', 'perm']))
             if not ak:
                 ak = (0,)
             if not bk:
